@@ -148,11 +148,7 @@ func readInterceptorTables(c *Ctx) (*interceptorTables, error) {
 // nsWalkRules implements O12.1-O12.5 (property C12) and, restricted to request roots, O16.1 (C16).
 func nsWalkRules(c *Ctx, prop string) (*report.Result, error) {
 	res := newResult(prop)
-	var extra []string
-	if c.Tier == "thorough" {
-		extra = []string{apiPath + "/...", srvPath + "/api/..."}
-	}
-	m, err := loadAPIModel(c, extra...)
+	m, err := loadAPIModel(c)
 	if err != nil {
 		return res, err
 	}
@@ -175,6 +171,10 @@ func nsWalkRules(c *Ctx, prop string) (*report.Result, error) {
 	res.Floors[r1] = 100
 	res.Floors[r2] = 8
 	res.Floors[r3] = 50
+	if prop == "C16" {
+		res.Floors[r1] = 60
+		res.Floors[r2] = 2
+	}
 
 	// ---- roots
 	var roots []apiRoot
@@ -192,39 +192,6 @@ func nsWalkRules(c *Ctx, prop string) (*report.Result, error) {
 	}
 	heNamed := heObj.Type().(*types.Named)
 	extraRoots := []apiRoot{{Service: "blob", Method: "events", Role: "request", Type: heNamed}}
-	if c.Tier == "thorough" {
-		// every proto message type of both API modules as a root
-		seen := map[*types.Named]bool{}
-		for _, r := range roots {
-			seen[r.Type] = true
-		}
-		var paths []string
-		for p := range m.pkgs {
-			if strings.HasPrefix(p, apiPath+"/") || strings.HasPrefix(p, srvPath+"/api/") {
-				paths = append(paths, p)
-			}
-		}
-		sort.Strings(paths)
-		for _, p := range paths {
-			sc := m.pkgs[p].Scope()
-			for _, name := range sc.Names() {
-				tn, ok := sc.Lookup(name).(*types.TypeName)
-				if !ok || !tn.Exported() {
-					continue
-				}
-				nt, ok := tn.Type().(*types.Named)
-				if !ok {
-					continue
-				}
-				if _, ok := nt.Underlying().(*types.Struct); !ok || seen[nt] || !isProtoMessage(nt) {
-					continue
-				}
-				seen[nt] = true
-				extraRoots = append(extraRoots, apiRoot{Service: "registered", Method: m.pkgs[p].Name(), Role: "message", Type: nt})
-			}
-		}
-	}
-
 	allNs := map[string]string{}
 	allBad := map[string]string{}
 	allBlobs := map[string]string{}
@@ -249,19 +216,11 @@ func nsWalkRules(c *Ctx, prop string) (*report.Result, error) {
 			}
 		}
 		for k, v := range f.nsInfoBad {
-			if r.Service == "registered" {
-				continue // only service roots and event content decide how NamespaceInfo is held
-			}
 			if _, ok := allBad[k]; !ok {
 				allBad[k] = "*NamespaceInfo value is not held as a struct field, so the special case in visitNamespace does not see it|" + v + "|" + r.Name()
 			}
 		}
 		for k, v := range f.blobSites {
-			if r.Service == "registered" {
-				// registered-message roots widen the name oracle only; blob classification is about
-				// what a service message can carry
-				continue
-			}
 			if _, ok := allBlobs[k]; !ok {
 				allBlobs[k] = v + "|" + r.Name()
 			}
@@ -404,6 +363,7 @@ func nsWalkRules(c *Ctx, prop string) (*report.Result, error) {
 
 	// ---- O12.4 walk cuts
 	checkWalkCuts(c, res, r4)
+	checkVisitLibrary(c, res, r4)
 
 	if prop == "C12" {
 		checkTranslateOrder(c, m, res)
